@@ -43,6 +43,7 @@ def _validator():
     return _VALIDATOR
 
 
+SEEN: list = []       # every document put to the bundled schema by this run (accepted and rejected): input of translated_schema_vs_jsonschema
 MISMATCH: list = []   # documents on which rbacx.dsl.validate.validate_policy and the bundled schema file disagree (C17's business)
 
 
@@ -62,6 +63,8 @@ def schema_ok(doc) -> bool:
     through the library's `validate_policy` — a difference is recorded in MISMATCH (the schema file's verdict is what is returned)"""
     ok = _validator().is_valid(doc)
     _N[0] += 1
+    if len(SEEN) < 20000:
+        SEEN.append(doc)
     if _N[0] % 25 == 0:
         real_ok = validator_ok(doc)
         if real_ok != ok:
@@ -73,6 +76,7 @@ def mutate(r: random.Random, pol: dict) -> dict:
     """a single-point change that the schema may or may not reject"""
     p = copy.deepcopy(pol)
     rules = p.get("rules")
+    kids: list = []
     if rules is None:
         kids = [c for c in p.get("policies") or [] if c.get("rules")]
         if not kids:
@@ -96,7 +100,10 @@ def mutate(r: random.Random, pol: dict) -> dict:
         rule["condition"] = gen.choice(r, [{"==": [1]}, {"==": [1, 2, 3]}, {"<": ["a", 1]}, {"and": 5}, {"==": [1, 1], "!=": [1, 2]}, {}, 5, None,
                                            {"foo": [1, 2]}, {"between": ["2024-01-01T00:00:00Z", ["2024-01-01T00:00:00Z"]]},
                                            {"in": [[1], 5]}, {"startsWith": [1, "a"]}, {"rel": {"relation": "viewer", "ctx": 5}},
-                                           {"rel": {"relation": "viewer", "extra": 1}}, {"rel": ""}, {"not": {"==": [1]}}])
+                                           {"rel": {"relation": "viewer", "extra": 1}}, {"rel": ""}, {"not": {"==": [1]}},
+                                           {"rel": {"relation": "viewer", "ctx": [1]}}, {"rel": {"relation": "viewer", "ctx": "x"}},
+                                           {"!=": [1, 2, 3]}, {"or": [{"and": "ab"}]}, {"and": {"==": [1, 1]}}, {"and": [{"==": [1]}]},
+                                           {"or": [False, {"!=": [1, 2, 3]}]}])
     elif k == 5:
         rule["obligations"] = gen.choice(r, [["x"], [None], {"type": "require_mfa"}, "mfa", [{"type": 5}], [{}]])
     elif k == 6:
@@ -107,6 +114,10 @@ def mutate(r: random.Random, pol: dict) -> dict:
         rule["extra"] = 1
     elif k == 9 and "rules" in p:
         p["policies"] = []
+    elif k == 9 and kids:
+        # a child that is itself a set (the schema's SinglePolicy has additionalProperties: false)
+        gen.choice(r, kids)["policies"] = gen.choice(r, [[], [5], 5, "ab", [{"rules": [{"id": "n", "effect": 1, "actions": ["read"], "resource": {"type": "doc"}}]}],
+                                                         [{"rules": [{"id": "n", "effect": "permit", "actions": ["*"], "resource": {"type": "*"}}]}]])
     elif k == 10:
         rule["resource"]["type"] = gen.choice(r, ["", ["doc", ""], "*", ["*"]])
     elif k == 11:
@@ -480,6 +491,149 @@ def overlapping_calls(run: lib.Run) -> None:
                     return
 
 
+# ----------------------------------------------------------------------------- the bundled schema, translated (obligation C06_schema)
+
+SCHEMA_OBLIGATION = ("C06_schema: Generated.Src.schema_root / schema_def (the current text of dsl/policy.schema.json, keyword by keyword) accept only "
+                     "documents that satisfy docWF, the hypothesis of c06_total — for every fuel and every value (schema_condition_wf, "
+                     "schema_rule_wf, schema_policy_wf, schema_doc_wf); schema_valid_total: c06_total with 'the schema accepts' as hypothesis")
+
+
+def _one_line(s) -> str:
+    return " ".join(str(s).split())
+
+
+def schema_obligation(run: lib.Run, audit: dict) -> tuple[bool, str, bool]:
+    """compile Run/C06_schema.lean against the schema as it is now; returns (discharged, detail, translatable)"""
+    tr = audit["facts"].get("translated_schema")
+    untranslatable = not isinstance(tr, dict) or "extraction_failed" in tr
+    ok, detail = lib.run_obligation("C06_schema")
+    if not ok and untranslatable:
+        detail = "the schema is outside the translatable keyword subset: " + str(
+            tr.get("extraction_failed") if isinstance(tr, dict) else "no translation of the schema in this run's facts")
+    run.obligation(SCHEMA_OBLIGATION, ok, "discharged" if ok else detail)
+    return ok, detail, not untranslatable
+
+
+def hostile_schema_docs() -> list:
+    """shapes aimed at the keyword meanings (Model/JsonSchema.lean) and the translator rather than at the engine: what each keyword does on
+    values of the WRONG type, boundary counts, exactly-one-of, references under `not`, annotations"""
+    R = {"id": "r", "effect": "permit", "actions": ["read"], "resource": {"type": "doc"}}
+
+    def pol(cond):
+        return {"rules": [{**R, "condition": cond}]}
+
+    def rule(**kw):
+        r_ = {**R, **kw}
+        return {"rules": [{k: v for k, v in r_.items() if v is not ...}]}
+    A = {"attr": "context.x"}
+    D = "2024-01-01T00:00:00Z"
+    out: list = [None, True, False, 0, 1, 1.0, "x", "", [], [{"rules": []}], {}, {"rules": []}, {"policies": []}, {"rules": [], "policies": []},
+                 {"rules": None}, {"rules": {}}, {"rules": "ab"}, {"rules": [None]}, {"rules": [[]]}, {"extra": 1, "rules": []}, {"extra": 1},
+                 {"policies": None}, {"policies": {}}, {"rules": [], "policies": None},
+                 {"algorithm": None, "rules": []}, {"algorithm": 1, "rules": []}, {"algorithm": "", "rules": []}, {"algorithm": True, "rules": []},
+                 {"algorithm": "first-applicable", "rules": []}, {"algorithm": "First-Applicable", "rules": []}, {"algorithm": ["deny-overrides"], "rules": []},
+                 {"policies": [{"rules": []}]}, {"policies": [{"rules": [], "policies": []}]}, {"policies": [{"rules": [], "id": "p"}]},
+                 {"policies": [{}]}, {"policies": [5]}, {"policies": [None]}, {"policies": [{"algorithm": 1, "rules": []}]},
+                 {"policies": [{"algorithm": "permit-overrides", "rules": [R]}], "algorithm": "deny-overrides"},
+                 {"policies": [{"rules": [R]}, {"rules": [{**R, "extra": 1}]}]}, {"policies": [{"rules": [R]}], "id": "set", "extra": [1]}]
+    # rule fields: presence, types, minLength / minItems boundaries
+    out += [rule(id=...), rule(effect=...), rule(actions=...), rule(resource=...), rule(id=""), rule(id=5), rule(id=None), rule(effect="allow"),
+            rule(effect=""), rule(effect=1), rule(effect=None), rule(effect=True), rule(effect=["permit"]), rule(actions=[]), rule(actions=[""]),
+            rule(actions=["a", ""]), rule(actions="read"), rule(actions=[1]), rule(actions=None), rule(actions={"read": 1}), rule(extra=1),
+            rule(resource={}), rule(resource={"id": "1"}), rule(resource={"type": ""}), rule(resource={"type": []}), rule(resource={"type": [""]}),
+            rule(resource={"type": ["a", ""]}), rule(resource={"type": ["a", "b"]}), rule(resource={"type": 1}), rule(resource={"type": None}),
+            rule(resource={"type": "doc", "attrs": []}), rule(resource={"type": "doc", "attrs": None}), rule(resource={"type": "doc", "attrs": {"a": float("nan")}}),
+            rule(resource={"type": "doc", "anything": [1, {"x": None}]}), rule(resource="doc"), rule(resource=None), rule(resource=[{"type": "doc"}]),
+            rule(obligations=[]), rule(obligations=[{}]), rule(obligations=["x"]), rule(obligations={}), rule(obligations=None), rule(obligations=[{"type": 5}, []]),
+            rule(condition=None)]
+    # conditions: boolean vs number twins, non-objects, key counts, unknown keys
+    out += [pol(c) for c in (True, False, 1, 0, 1.0, 0.0, "true", None, [], [True], {}, {"foo": [1, 2]}, {"==": [1, 1], "!=": [1, 2]}, {"and": [], "or": []},
+                             {"not": True, "x": 1}, {"and": []}, {"or": []}, {"and": [True, 1]}, {"and": 5}, {"and": "ab"}, {"and": {"==": [1, 1]}}, {"or": None},
+                             {"not": True}, {"not": 1}, {"not": None}, {"not": {}}, {"not": [True]}, {"not": {"not": {"not": {"==": [1]}}}},
+                             {"and": [{"or": [{"not": {"==": [1, 2]}}, {"!=": [1, 2, 3]}]}]})]
+    # operand counts for every operator (`items: false` tails, minItems/maxItems, non-lists)
+    for op in GRID_OPS + ["between"]:
+        good = {"between": [D, [D, D]], "before": [D, D], "after": [D, D], "startsWith": ["a", "b"], "endsWith": ["a", "b"], "contains": [[1], 1],
+                "in": [1, [1]], "hasAll": [[1], [1]], "hasAny": [[1], [1]]}.get(op, [1, 2])
+        out += [pol({op: x}) for x in (good, good + [good[0]], good[:1], [], "ab", {"a": 1, "b": 2}, None, 5, [A, A], [None, None], [True, False], [[], {}],
+                                       [good[1], good[0]])]
+    # typed operands: number (not bool; 1.0 is one), string, AttrRef vs plain object, containers, date-time is an annotation
+    out += [pol({">": x}) for x in ([1, True], [True, 1], [1.0, 2], [float("inf"), float("nan")], [10 ** 400, -1], ["1", 1], [A, 1], [{"attr": 1}, 1],
+                                    [{"attr": "a", "b": 1}, 1], [{}, 1], [None, 1], [[1], 1])]
+    out += [pol({"startsWith": x}) for x in (["", ""], [A, "a"], ["a", A], [1, "a"], [{"attr": None}, "a"], [["a"], "a"], [True, "a"])]
+    out += [pol({"in": x}) for x in ([1, [1]], ["a", "abc"], [A, [1]], [1, A], ["a", A], [1, {"a": 1}], [1, {"attr": 1}], [1, {"attr": "a", "b": 1}], [1, {}],
+                                     [1, 5], [1, None], [1, True], [True, [1]], [None, [1]], [[1], [1]], [1.5, {"attr": "a"}])]
+    out += [pol({"contains": x}) for x in ([[1], 1], ["abc", "a"], [A, 1], [A, A], [{"a": 1}, "a"], [{"attr": "a"}, "a"], [{"attr": 1}, "a"], [5, 1], [[1], [1]],
+                                           [[1], None])]
+    out += [pol({"hasAny": x}) for x in ([A, A], [{}, {}], [{"attr": "x"}, {"attr": 1}], ["ab", ["a"]], [1, [1]], [[1], True])]
+    out += [pol({"before": x}) for x in (["not a date", D], ["", ""], [D, "2024-13-45T99:00:00"], [1, D], [A, D], [D, A], [None, D], [D, [D]])]
+    out += [pol({"between": x}) for x in ([D, [D]], [D, [D, D, D]], [D, "ab"], [D, [A, A]], [A, [D, "x"]], [D, [1, D]], [D, A], [D, {"a": 1, "b": 2}], [[D, D], D])]
+    # rel in both spellings
+    out += [pol({"rel": x}) for x in ("viewer", "", 5, None, True, [], ["viewer"], {}, {"relation": "viewer"}, {"relation": ""}, {"relation": 5}, {"relation": None},
+                                      {"subject": "u"}, {"relation": "viewer", "subject": "u", "resource": A}, {"relation": "viewer", "subject": 5},
+                                      {"relation": "viewer", "resource": {"attr": 5}}, {"relation": "viewer", "ctx": {}}, {"relation": "viewer", "ctx": {"a": [1]}},
+                                      {"relation": "viewer", "ctx": []}, {"relation": "viewer", "ctx": [1]}, {"relation": "viewer", "ctx": None},
+                                      {"relation": "viewer", "ctx": 5}, {"relation": "viewer", "ctx": "x"}, {"relation": "viewer", "ctx": False},
+                                      {"relation": "viewer", "extra": 1})]
+    out += [pol({"rel": "viewer", "==": [1, 1]})]
+    # references nested deeply (the budget of the translated schema: one unit per $ref)
+    deep = True
+    for _ in range(40):
+        deep = {"not": deep}
+    wide = {"==": [1, 2]}
+    for k in range(25):
+        wide = {("and", "or")[k % 2]: [wide, {"<": [A, k]}]}
+    bad_deep = {"==": [1]}
+    for _ in range(30):
+        bad_deep = {"and": [True, {"not": bad_deep}]}
+    out += [pol(deep), pol(wide), pol(bad_deep), {"policies": [{"rules": [{**R, "condition": wide}]}] * 3}]
+    return out
+
+
+def translated_schema_vs_jsonschema(run: lib.Run) -> tuple[bool, str]:
+    """the translated schema (Generated.Src.schema_root, evaluated by `lake env lean --run Rbacx/Run/SrcEvalSchema.lean`) against the real
+    `jsonschema` validator built from the same file — on EVERY document this run put to the schema (grammar documents and single-point
+    mutations, accepted and rejected alike) and on the hostile shapes above — and against `rbacx.dsl.validate.validate_policy` (on the
+    hostile shapes and every 50th generated document: it re-checks the schema itself on every call, ~50 ms).  Both directions.  Validates the
+    translator (harness/pytolean_schema.py) and the keyword meanings (Model/JsonSchema.lean), the two things the obligation C06_schema trusts."""
+    import subprocess
+    hostile = hostile_schema_docs()
+    docs = [(d, True) for d in hostile] + [(d, k % 50 == 0) for k, d in enumerate(SEEN)]
+    jobs, lines = [], []
+    for doc, with_lib in docs:
+        try:
+            line = json.dumps({"doc": proto.enc(doc)})
+        except (TypeError, ValueError):
+            run.count("translated-schema: outside the value universe (not judged)")
+            continue
+        want = _validator().is_valid(doc)
+        jobs.append((doc, want, validator_ok(doc) if with_lib else None))
+        lines.append(line)
+    p = subprocess.run(["lake", "env", "lean", "--run", "Rbacx/Run/SrcEvalSchema.lean"], cwd=lib.LEAN, input="\n".join(lines) + "\n",
+                       capture_output=True, text=True, timeout=900)
+    outs = [ln for ln in p.stdout.split("\n") if ln]
+    if p.returncode != 0 or len(outs) != len(lines):
+        return False, "SrcEvalSchema: " + _one_line(p.stderr or p.stdout)[-800:]
+    bad = 0
+    for (doc, want, want_lib), ln in zip(jobs, outs):
+        got = json.loads(ln)
+        if "valid" not in got:
+            return False, f"SrcEvalSchema: {ln[:300]}"
+        run.count("translated-schema: " + ("accepted" if want else "rejected") + (" (validate_policy asked too)" if want_lib is not None else ""))
+        if got["valid"] != want or (want_lib is not None and want_lib != want):
+            bad += 1
+            if bad == 1:
+                run.disagreements.append({"part": "translated schema vs jsonschema", "document": doc, "translated_schema_accepts": got["valid"],
+                                          "fuel": got.get("fuel"), "bundled_schema_accepts": want, "validate_policy_accepts": want_lib,
+                                          "what": "the translated bundled schema (Generated.Src.schema_root), the jsonschema validator built from "
+                                                  "policy.schema.json and rbacx.dsl.validate.validate_policy do not give one verdict"})
+    n = len(jobs)
+    run.count("translated-schema", n)
+    run.evaluations += n
+    return bad == 0, (f"{bad} of {n} verdicts differ" if bad else
+                      f"agree on {n} documents ({sum(1 for _, w, _ in jobs if w)} accepted; {len(hostile)} hostile shapes)")
+
+
 def check(run: lib.Run, audit: dict) -> int:
     run.rule = ("grid: 14 binary operators + between × ~90 hostile values (non-finite/huge/out-of-range numbers, odd and calendar-edge ISO "
                 "strings with offsets, nulls, containers) as left / right / both attribute operands and as policy literal, lax and strict; "
@@ -492,14 +646,40 @@ def check(run: lib.Run, audit: dict) -> int:
                        "strings with lone surrogates cannot be represented in the model (Lean String): they are evaluated on the real engine only (must not raise)"]
     if not audit["ok"]:
         raise lib.CheckError(f"Lean build/audit failed at {audit['stage']}: {audit.get('log') or audit.get('forbidden') or audit.get('bad_axioms')}")
+    del SEEN[:]
+    # the schema as it is written NOW, translated into Lean, is proved to guarantee the hypothesis of c06_total
+    ok_schema, detail_schema, translatable = schema_obligation(run, audit)
     run_cases(run, audit, scale=run.boost)
+    if translatable:
+        ok_cmp, detail_cmp = translated_schema_vs_jsonschema(run)
+    else:
+        ok_cmp, detail_cmp = True, "skipped: the schema is not in the translatable keyword subset (see C06_schema)"
+    run.obligation("translated schema gives the verdict of the real jsonschema validator built from policy.schema.json and of "
+                   "rbacx.dsl.validate.validate_policy (translator + Model/JsonSchema.lean vs the jsonschema library)", ok_cmp, detail_cmp)
     overlapping_calls(run)
     violations = []
-    if run.disagreements and not run.spec_failures:
-        run_cases(run, audit, scale=4, extras=False)
+    if (run.disagreements or not ok_schema) and not run.spec_failures:
+        run_cases(run, audit, scale=4, extras=False)   # correspondence or the schema tie broke: widen the search for a failing input
     if run.spec_failures:
-        path = run.write_replay("spec", {"what": "C06 violated on the real engine", "case": run.spec_failures[0], "count": len(run.spec_failures)})
+        path = run.write_replay("spec", {"what": "C06 violated on the real engine", "case": run.spec_failures[0], "count": len(run.spec_failures),
+                                         "schema_obligation": "discharged" if ok_schema else detail_schema[-1500:]})
         violations.append((path, True))
+    elif not ok_schema:
+        path = run.write_replay("obligation", {
+            "what": "per-run obligation Rbacx/Run/C06_schema.lean no longer checks: the bundled schema as it is written now is not proved to "
+                    "guarantee docWF, the hypothesis under which Rbacx.C06.c06_total says evaluation never raises; the widened search found no "
+                    "schema-accepted document on which the real engine raises",
+            "translation": "see lean/Rbacx/Generated.lean (Src.schema_def)" if translatable else audit["facts"].get("translated_schema"),
+            "lean": detail_schema[-1500:], "first_disagreement": run.disagreements[:1]})
+        violations.append((path, False))
+    elif run.disagreements and run.disagreements[0].get("part") == "translated schema vs jsonschema":
+        path = run.write_replay("correspondence", {"what": "translated schema vs jsonschema: " + run.disagreements[0]["what"] + "; the obligation "
+                                                   "C06_schema rests on a translation / keyword meaning that the jsonschema library contradicts",
+                                                   "first": run.disagreements[0], "count": len(run.disagreements), "detail": detail_cmp})
+        violations.append((path, False))
+    elif not ok_cmp:
+        path = run.write_replay("correspondence", {"what": "the translated schema could not be evaluated / compared: " + detail_cmp})
+        violations.append((path, False))
     elif run.disagreements:
         path = run.write_replay("correspondence", {"what": "model Rbacx.guardEval / well-formedness hypothesis and the engine disagree; theorem "
                                                    "Rbacx.C06.c06_total no longer speaks about this code", "first": run.disagreements[0],
